@@ -47,6 +47,7 @@ var c04Kinds = []string{
 	"restart-recurring-image", // new DB object; the application checkpointed (mode) and refilled the WAL past the old cursor so that the frame AT the old cursor carries the same page number and page image as before (a one-row status toggle), in a new generation
 	"reopen-recurring-image",  // same, through Close/Open of the same DB object
 	"live-app-ckpt",           // litestream RUNNING: after its own checkpoint (read mark 0) and a sync to the WAL end, the application commits, checkpoints (mode) and commits again
+	"runtime-reset-ahead",     // ResetLocalState on the live object while the local level-0 chain is AHEAD of the replica (a local sync not yet uploaded) and litestream's own checkpoint (mode) has reset the WAL since: the re-fetched baseline is older than the in-memory cursor
 }
 
 var ckModes = []string{"PASSIVE", "FULL", "RESTART", "TRUNCATE"}
@@ -54,6 +55,10 @@ var ckModes = []string{"PASSIVE", "FULL", "RESTART", "TRUNCATE"}
 func pickScenario(rng *rand.Rand, i int) scenario {
 	s := scenario{kind: c04Kinds[i%len(c04Kinds)], nSynced: 2 + rng.Intn(3)}
 	switch s.kind {
+	case "runtime-reset-ahead":
+		s.mode = ckModes[(i/len(c04Kinds))%len(ckModes)]
+		s.nBefore = 1 + rng.Intn(2)
+		s.nAfter = rng.Intn(2)
 	case "restart-ckpt", "reopen-ckpt", "live-app-ckpt":
 		s.mode = ckModes[(i/len(c04Kinds))%len(ckModes)]
 		// relative lengths of the old cursor and the new WAL generation: fewer / same / more
@@ -410,11 +415,37 @@ func runC04(rc *Recorder, dir string, rng *rand.Rand, idx int) error {
 			return fmt.Errorf("reopen same object: %w", err)
 		}
 	case "runtime-reset":
+		stR := w.ldb.VerifSyncState()
 		if err := w.ldb.ResetLocalState(ctx); err != nil {
 			return err
 		}
+		w.observeReset(rc, stR)
 		if err := away(); err != nil {
 			return err
+		}
+	case "runtime-reset-ahead":
+		// commits copied into local level-0 files that are never uploaded, then litestream's own
+		// checkpoint (its copy + the PRAGMA + the bump: the WAL is reset or restartable), then the reset
+		for i := 0; i < sc.nBefore; i++ {
+			if err := w.singleWrite("u"); err != nil {
+				return err
+			}
+		}
+		if err := w.ldb.Sync(ctx); err != nil {
+			return fmt.Errorf("local sync before reset: %w", err)
+		}
+		if err := w.ldb.Checkpoint(ctx, sc.mode); err != nil {
+			w.trace = append(w.trace, "CK-error:"+errClass(err))
+		}
+		stR := w.ldb.VerifSyncState()
+		if err := w.ldb.ResetLocalState(ctx); err != nil {
+			return err
+		}
+		w.observeReset(rc, stR)
+		for i := 0; i < sc.nAfter; i++ {
+			if err := w.singleWrite("t"); err != nil {
+				return err
+			}
 		}
 	}
 	newEnd := walEnd(w.dbPath + "-wal")
